@@ -17,11 +17,13 @@ mv "$DEMO" /tmp/confirm_demo_$ID.go
 SUITE=$(go test -vet=off -count=1 ./... 2>&1 | grep -v "no test files" | grep -vc "^ok")
 mv /tmp/confirm_demo_$ID.go "$DEMO"
 echo "existing suite with the change: $SUITE package(s) not ok"
-WITH=$(timeout 300 go test -vet=off -count=1 -run 'TestDemo' $PKG 2>&1 | tail -1)
+WITH=$(timeout 300 go test -vet=off -count=1 -run 'TestDemo|TestZZDemo' $PKG 2>&1 | tail -1)
 echo "demo WITH change: $WITH"
-git stash push -q -- $CHANGED
-WITHOUT=$(timeout 300 go test -vet=off -count=1 -run 'TestDemo' $PKG 2>&1 | tail -1)
-git stash pop -q
+# no git stash here: refs/stash is shared by /repo and all its worktrees (two agents and this
+# script once swapped changes that way); reverse-apply the saved diff instead
+git apply -R /tmp/confirm_$ID.diff || { echo "cannot reverse the change"; exit 2; }
+WITHOUT=$(timeout 300 go test -vet=off -count=1 -run 'TestDemo|TestZZDemo' $PKG 2>&1 | tail -1)
+git apply /tmp/confirm_$ID.diff || { echo "cannot re-apply the change"; exit 2; }
 echo "demo WITHOUT change: $WITHOUT"
 case "$WITH" in FAIL*|*FAIL*) w=fail;; *) w=pass;; esac
 case "$WITHOUT" in ok*) wo=pass;; *) wo=fail;; esac
